@@ -2,7 +2,7 @@
 from contracts import plane as _pl
 
 META = {
-    'level_text': 'Proof (reals): Field.shift, executed on Tilt objects built by the real constructors, returns row = +z*x_angle*oversample/du_row and col = -z*y_angle*oversample/du_col for 0, 1 and 2 tilt elements (sum; order-independent), i.e. the x/y swap, the signs and the per-axis pixel scale of the statement; Tilt.shift and first-order DispersiveTilt.shift are pure translations, the dispersive displacement lies on the trace polynomial at the arc length the dispersion polynomial maps to the wavelength; Wavefront(tilt=) wraps the right Tilt; Plane.multiply hands every recorded tilt of a segment (after one or two fits) to that segment\'s fields; the phase identity "OPD ramp = kernel shifted by s = z t os/du on the same axis"; propagate_dft applies the full displacement (integer + sub-pixel) to the evaluated coordinates (C02 clause, re-verified here). fit_tilt on the real code (monolithic and 2-segment planes, copy and in place, first and second fit; numpy lstsq abstract): each segment is fitted with the least-squares problem whose columns are piston, row ramp r*ps_row and column ramp -c*ps_col over the segment mask against the flattened OPD, the recorded Tilt carries exactly the fitted x and y coefficients, and new OPD + the ramp the recorded Tilt stands for = old OPD (times the sum of the masks). That lstsq returns the least-squares solution and the end-to-end agreement of the four representations are bounded native stand-ins.',
+    'level_text': 'Proof (reals): Field.shift, executed on Tilt objects built by the real constructors, returns row = +z*x_angle*oversample/du_row and col = -z*y_angle*oversample/du_col for 0, 1 and 2 tilt elements (sum; order-independent), i.e. the x/y swap, the signs and the per-axis pixel scale of the statement; Tilt.shift and first-order DispersiveTilt.shift are pure translations, the dispersive displacement lies on the trace polynomial at the arc length the dispersion polynomial maps to the wavelength; Wavefront(tilt=) wraps the right Tilt; Plane.multiply hands every recorded tilt of a segment (after one or two fits) to that segment\'s fields; the phase identity "OPD ramp = kernel shifted by s = z t os/du on the same axis"; propagate_dft applies the full displacement (integer + sub-pixel) to the evaluated coordinates (C02 clause, re-verified here). fit_tilt on the real code (monolithic and 2-segment planes, copy and in place, first and second fit; numpy lstsq abstract): each segment is fitted with the least-squares problem whose columns are piston, row ramp r*ps_row and column ramp -c*ps_col over the segment mask against the flattened OPD, the recorded Tilt carries exactly the fitted x and y coefficients, and new OPD + the ramp the recorded Tilt stands for = old OPD (times the sum of the masks). DispersiveTilt._arc_len hands its limits to the (abstract) quadrature in the given order, i.e. arc lengths are signed. That lstsq returns the least-squares solution and the end-to-end agreement of the four representations are bounded native stand-ins.',
     'level_note': 'np.linalg.lstsq and scipy root finding / quadrature (dispersive order > 1) are outside the verifier: the value of the lstsq solution is covered by a bounded native stand-in only. sqrt uninterpreted with s*s = x. A2 reals.',
 }
 FUNCTIONS = ['lentil.field.Field.shift', 'lentil.propagate.propagate_dft', 'lentil.propagate.propagate_dft#2', 'lentil.propagate._dft_alpha',
